@@ -8,7 +8,7 @@ import logging
 from harness import ashlib, fullstack
 from harness.ashlib import hx
 
-FAILS = ["error", "error_unnamed", "rstack_poweron", "rstack_unknown", "rstack_unnamed", "silent", "chatty", "lost_exc", "eof", "close"]
+FAILS = ["error", "error_unnamed", "rstack_poweron", "rstack_unknown", "rstack_unnamed", "silent", "silent_xoff", "chatty", "lost_exc", "eof", "close"]
 POINTS = ["idle", "inflight", "awaiting", "queued", "resetting", "abandoned"]
 
 
@@ -122,9 +122,12 @@ def scenario(n, fail, point, attached, batched, second=None, history=None):
             elif fail == "rstack_unknown":
                 # the NCP reset for a reason it does not know (code 0x00): not the software reset the host may have asked for
                 cbs = pre + [(w.protocol.data_received, ashlib.spec_wire("K", code=0x00))]
-            elif fail in ("silent", "chatty"):
+            elif fail in ("silent", "silent_xoff", "chatty"):
                 w.ncp.silent = True
                 cbs = []
+                if fail == "silent_xoff":
+                    # the last thing the NCP says before it goes quiet is the in-band "hold off" byte (XOFF): a silent NCP all the same
+                    cbs = [(w.protocol.data_received, b"\x13")]
                 if point == "idle":
                     tasks.append(loop.create_task(call("c1", w.ezsp.getEui64())))
                 if fail == "chatty":
@@ -151,10 +154,10 @@ def scenario(n, fail, point, attached, batched, second=None, history=None):
             await asyncio.sleep(0.01)
             # ---- let everything that was in progress end
             for _ in range(200):
-                if all(t.done() for t in tasks) and (fail not in ("silent", "chatty") or not w.ezsp.is_ezsp_running or not attached):
+                if all(t.done() for t in tasks) and (fail not in ("silent", "silent_xoff", "chatty") or not w.ezsp.is_ezsp_running or not attached):
                     break
                 await asyncio.sleep(1.0)
-            if fail in ("silent", "chatty") and w.ezsp.is_ezsp_running and point != "abandoned":
+            if fail in ("silent", "silent_xoff", "chatty") and w.ezsp.is_ezsp_running and point != "abandoned":
                 # silence is only noticed when something is sent: the next command (e.g. the watchdog's) finds out
                 t = loop.create_task(call("probe", w.ezsp.nop()))
                 tasks.append(t)
@@ -213,7 +216,7 @@ def oracle(fail, point, attached, o, second=None):
         if reqs:
             return f"a deliberate close produced {reqs} controller-reset request(s)"
         return None
-    if fail in ("silent", "chatty") and point == "resetting":
+    if fail in ("silent", "silent_xoff", "chatty") and point == "resetting":
         # the application's own reset() call is what fails here (TimeoutError); nothing else is in progress
         r = o["results"].get("reset")
         if r is None or r[0] == "ok":
@@ -250,7 +253,7 @@ def cases(ctx):
             for point in POINTS:
                 for attached in (True, False):
                     for batched in (False, True):
-                        if batched and fail in ("silent", "chatty", "close"):
+                        if batched and fail in ("silent", "silent_xoff", "chatty", "close"):
                             continue
                         cs.append((n, fail, point, attached, batched))
     # a network operation waiting for its stack-status callback: the failure while it waits, and right behind the callback
@@ -274,7 +277,7 @@ def cases(ctx):
     return cs
 
 
-EVENT_OF = {"error": "fail81", "error_unnamed": "fail129", "rstack_unnamed": "fail12", "rstack_poweron": "fail2", "rstack_unknown": "fail0", "silent": "fail81", "chatty": "fail81", "lost_exc": "lost", "eof": "lost"}
+EVENT_OF = {"error": "fail81", "error_unnamed": "fail129", "rstack_unnamed": "fail12", "rstack_poweron": "fail2", "rstack_unknown": "fail0", "silent": "fail81", "silent_xoff": "fail81", "chatty": "fail81", "lost_exc": "lost", "eof": "lost"}
 
 
 def run(ctx):
@@ -316,9 +319,9 @@ def run(ctx):
             m_after = "EzspError" if "RAISED" in last else "sent"
             i_after = "EzspError" if o["after"][0] == "EzspError" else "sent"
             # without an application attached the silent link still fails commands at the ASH layer
-            if fail in ("silent", "chatty") and point == "resetting":
+            if fail in ("silent", "silent_xoff", "chatty") and point == "resetting":
                 continue
-            if mreq != len(o["requests"]) or (m_after != i_after and not (m_after == "sent" and fail in ("silent", "chatty", "lost_exc", "eof", "error", "error_unnamed") and not attached)):
+            if mreq != len(o["requests"]) or (m_after != i_after and not (m_after == "sent" and fail in ("silent", "silent_xoff", "chatty", "lost_exc", "eof", "error", "error_unnamed") and not attached)):
                 ctx.corr_diff(f"EZSP failure reaction differs ({fail} at {point})", {"case": list(map(str, c))},
                               f"requests={len(o['requests'])} after={o['after']} running={o['running_after']}", model[i])
         if i % 25 == 0:
